@@ -1,11 +1,13 @@
 package props
 
 import (
+	"encoding/hex"
 	"encoding/json"
 	"fmt"
 	"reflect"
 	"strings"
 	"testing"
+	"unicode/utf8"
 
 	seccomp "github.com/elastic/go-seccomp-bpf"
 	uyaml "github.com/elastic/go-ucfg/yaml"
@@ -27,6 +29,8 @@ import (
 type c14ParseCase struct {
 	Kind  string `json:"kind"` // action / operation
 	Input string `json:"input"`
+	// Hex: the input as hex-encoded bytes, for inputs that are not valid UTF-8 (JSON would alter them); overrides Input
+	Hex string `json:"hex,omitempty"`
 }
 
 func asciiLower(s string) string {
@@ -43,6 +47,13 @@ func checkC14Parse(raw json.RawMessage) (ev.Result, error) {
 	var c c14ParseCase
 	if err := json.Unmarshal(raw, &c); err != nil {
 		return ev.Result{}, ev.Inconclusivef("bad case: %v", err)
+	}
+	if c.Hex != "" {
+		b, err := hex.DecodeString(c.Hex)
+		if err != nil {
+			return ev.Result{}, ev.Inconclusivef("bad case: %v", err)
+		}
+		c.Input = string(b)
 	}
 	res := ev.Result{Classes: []string{"parse:" + c.Kind}}
 	if !isASCII(c.Input) {
@@ -193,7 +204,13 @@ func drawC14Parse(t *rapid.T) c14ParseCase {
 		}
 	}
 	s := string(b)
-	switch rapid.IntRange(0, 11).Draw(t, "edit") {
+	switch rapid.IntRange(0, 12).Draw(t, "edit") {
+	case 12:
+		if len(s) > 0 {
+			b := []byte(s)
+			b[rapid.IntRange(0, len(b)-1).Draw(t, "flipAt")] ^= 1 << uint(rapid.IntRange(0, 7).Draw(t, "flipBit"))
+			s = string(b)
+		}
 	case 0, 1, 2, 3, 4:
 	case 5:
 		s = s + rapid.StringMatching(`[a-z_ ]`).Draw(t, "suffix")
@@ -291,7 +308,30 @@ func TestC14ParserDictionary(t *testing.T) {
 			}
 		}
 	}
-	ev.Exhaustive("C14", "alias dictionary x 4 letter cases x both parsers", n)
+	// every single-bit corruption of every documented name, in lower and upper case (a flipped bit 5 of a letter is a
+	// case variant and must still parse; everything else - '_' turned into DEL or a blank, a letter into its neighbour,
+	// bytes >= 0x80 - is not a documented name)
+	for _, name := range append([]string{"kill_thread", "kill_process", "trap", "errno", "trace", "log", "allow"}, spec.Ops...) {
+		for _, base := range []string{name, strings.ToLower(name), strings.ToUpper(name)} {
+			for i := 0; i < len(base); i++ {
+				for bit := uint(0); bit < 8; bit++ {
+					b := []byte(base)
+					b[i] ^= 1 << bit
+					for _, kind := range []string{"action", "operation"} {
+						n++
+						pc := c14ParseCase{Kind: kind, Input: string(b)}
+						if !utf8.Valid(b) {
+							pc = c14ParseCase{Kind: kind, Hex: hex.EncodeToString(b)}
+						}
+						if !ev.CheckOne(t, "C14", "parse", pc, checkC14Parse) {
+							return
+						}
+					}
+				}
+			}
+		}
+	}
+	ev.Exhaustive("C14", "alias dictionary x 4 letter cases x both parsers; all single-bit corruptions of the documented names", n)
 }
 
 func TestC14Parsers(t *testing.T) {
